@@ -7,7 +7,10 @@
 (*  - evaluation is a function of (key material, gate, input contents):    *)
 (*    the generated key set, a re-imported cloud key set and a re-imported *)
 (*    secret key set produce bit-identical ciphertexts, on the first run   *)
-(*    and on the re-run on another thread (memo);                          *)
+(*    and on the re-run on another thread (memo) - and whichever thread    *)
+(*    executes a step: one step in four runs on a helper thread that is    *)
+(*    created for it and exits at once (field th), so that keys, arrays    *)
+(*    and blobs routinely outlive the thread that made them;               *)
 (*  - every export of the cloud (secret) key of one program has the same   *)
 (*    bytes, whichever key set object it is taken from, and re-exporting   *)
 (*    right after import reproduces them; ciphertexts survive export and   *)
@@ -16,10 +19,10 @@
 (*    alive after the thread that ran a whole lifecycle has exited.        *)
 (***************************************************************************)
 EXTENDS Life, Json, IOUtils
-VARIABLES l, memo, keyh, ctsh, nhit, nstrict
+VARIABLES l, memo, keyh, ctsh, nhit, nstrict, nhelp
 Tr == ndJsonDeserialize(IOEnv.TRACE)
 Ev == Tr[l]
-tvars == <<obj, val, blob, bval, fin, steps, last, l, memo, keyh, ctsh, nhit, nstrict>>
+tvars == <<obj, val, blob, bval, fin, steps, last, l, memo, keyh, ctsh, nhit, nstrict, nhelp>>
 None == <<-1, -1>>
 NoKey == <<None, -1>>
 HasOut(e) == e.e = "Step" /\ e.op \in {"Gate", "Mux", "Const"}
@@ -27,7 +30,7 @@ KeyOf(e) == <<e.prog, e.op, IF e.op = "Gate" THEN e.g ELSE "-", IF e.op = "Const
 MemoKeys == {KeyOf(Tr[i]) : i \in {j \in 1..Len(Tr) : HasOut(Tr[j])}}
 Progs == {Tr[i].prog : i \in 1..Len(Tr)}
 TInit == /\ LInit /\ l = 1 /\ memo = [k \in MemoKeys |-> None] /\ keyh = [p \in Progs |-> [cloud |-> NoKey, secret |-> NoKey]]
-         /\ ctsh = None /\ nhit = 0 /\ nstrict = 0
+         /\ ctsh = None /\ nhit = 0 /\ nstrict = 0 /\ nhelp = 0
 Consume == l <= Len(Tr) /\ l' = l + 1
 Function == LET k == KeyOf(Ev) IN
             IF memo[k] = None THEN memo' = [memo EXCEPT ![k] = Ev.hout] /\ nhit' = nhit
@@ -36,8 +39,8 @@ SameKeyBytes(which) == LET cur == keyh[Ev.prog][which] h == <<Ev.h, Ev.len>> IN
             IF cur = NoKey THEN keyh' = [keyh EXCEPT ![Ev.prog][which] = h] ELSE h = cur /\ keyh' = keyh
 Quiet == UNCHANGED <<memo, keyh, ctsh, nhit, nstrict>>
 TReset == /\ Ev.e = "Reset" /\ obj' = [o \in Objs |-> "none"] /\ val' = [a \in Arr |-> NoVals] /\ blob' = {} /\ bval' = NoVals
-          /\ fin' = TRUE /\ steps' = 0 /\ last' = [op |-> "Init"] /\ ctsh' = None /\ UNCHANGED <<memo, keyh, nhit, nstrict>>
-TStep == /\ Ev.e = "Step"
+          /\ fin' = TRUE /\ steps' = 0 /\ last' = [op |-> "Init"] /\ ctsh' = None /\ UNCHANGED <<memo, keyh, nhit, nstrict, nhelp>>
+TStep == /\ Ev.e = "Step" /\ Ev.th \in {"run", "helper"} /\ nhelp' = nhelp + (IF Ev.th = "helper" /\ Ev.op \in {"KeyGen", "ImportCloud", "ImportSecret", "Gate", "Mux"} THEN 1 ELSE 0)
          /\ CASE Ev.op = "NewParams"    -> NewParams /\ Quiet
               [] Ev.op = "KeyGen"       -> KeyGen /\ Quiet
               [] Ev.op = "NewCt"        -> NewCt(Ev.a, Ev.k) /\ Quiet
@@ -59,9 +62,9 @@ TStep == /\ Ev.e = "Step"
 TWindow == /\ Ev.e = "Window" /\ Terminal
            /\ Ev.damaged = 0 /\ Ev.dfree = 0
            /\ (Ev.strict = 1 => Ev.live_bytes = 0 /\ Ev.live_blocks = 0)
-           /\ nstrict' = nstrict + Ev.strict /\ UNCHANGED <<obj, val, blob, bval, fin, steps, last, memo, keyh, ctsh, nhit>>
+           /\ nstrict' = nstrict + Ev.strict /\ UNCHANGED <<obj, val, blob, bval, fin, steps, last, memo, keyh, ctsh, nhit, nhelp>>
 TNext == Consume /\ (TReset \/ TStep \/ TWindow)                 \* a "Crash" event matches no action
 TSpec == TInit /\ [][TNext]_tvars
 Accepted == TLCGet("stats").diameter - 1 = Len(Tr)
-Exercised == (l = Len(Tr) + 1) => nhit >= 1 /\ nstrict >= 1
+Exercised == (l = Len(Tr) + 1) => nhit >= 1 /\ nstrict >= 1 /\ nhelp >= 1
 =============================================================================
